@@ -33,7 +33,7 @@ Compositional ==
             LET sep == IF j = 1 THEN <<10, 10>> ELSE <<32>>
             IN (s = Blocks[a] \o sep \o Blocks[b]) =>
                  \A p \in Pols, i \in DOMAIN OptSets :
-                     (j = 1 \/ p \in {"macros", "except-in-equations", "true"}) =>
+                     (j = 1 \/ Policy(p).lc) =>      \* a single space between blocks survives iff whitespace between constructs is kept
                      (LET ta == Text(Blocks[a], p, i) tb == Text(Blocks[b], p, i) tj == Text(s, p, i)
                       IN (ta # <<>> /\ tb # <<>>) => (tj # <<>> /\ tj[1] = ta[1] \o sep \o tb[1]))
 
